@@ -266,6 +266,11 @@ class HTMLUnicodeInputStream(object):
             # We have no more data, bye-bye stream
             return False
 
+        if len(data) == 1 and (data == "\r" or "\uD800" <= data <= "\uDBFF"):
+            # A lone CR or lead surrogate: what follows decides how it is
+            # treated, so it cannot be handed out on its own.
+            data += self.dataStream.read(chunkSize)
+
         if len(data) > 1:
             lastv = ord(data[-1])
             if lastv == 0x0D or 0xD800 <= lastv <= 0xDBFF:
